@@ -1,10 +1,10 @@
 CONSTANTS NQ = 2
-MAXLEN = 3
-ONEQ = {"T", "HAD"}
+MAXLEN = 6
+ONEQ = {"T", "HAD", "S"}
 TWOQ = {"CNOT", "CZ"}
 PHS = {}
-STRAT = "clifford"
-TEMPLATE <- NoTemplate
+STRAT = "full"
+TEMPLATE <- TmplOne
 SIMPMODE = "all"
 GAUSS = "simple"
 INIT Init
